@@ -542,3 +542,43 @@ class SSScriptedSource(Elaboratable):
                 m.d.comb += self.pkt.eq(len(self.packets))
                 free()
         return m
+
+
+# ------------------------------------------------------------------ reference word list of one packet
+
+def packet_words(m, name, dw0, dw1, dw2, lcw, pay=(), length=None, m16=0, m5=0, m32=0, abort=False):
+    """Reference word sequence [(data Value, ctrl int)] of a header packet and (length is not None) its data packet
+    payload: HPSTART, DW0..2, DW3 (CRC16 | link control word | CRC5), DPPSTART, payload words, CRC32 directly after
+    the last byte, END END END EPF directly after the CRC, zero fill -- or, with `abort`, DPPSTART followed by
+    EDB EDB EDB EPF.  `pay` = list of 32-bit Values (ceil(length/4) of them).  CRCs by the repo's step functions,
+    one named Signal per stage."""
+    hw = header_words(m, f"{name}_h", dw0, dw1, dw2, lcw, m16, m5)
+    out = [(Const(HPSTART[0], 32), 0xF)] + [(w, 0) for w in hw]
+    if length is None:
+        return out
+    out.append((Const(DPPSTART[0], 32), 0xF))
+    if abort:
+        out.append((Const(DPPABORT[0], 32), 0xF))
+        return out
+    nfull, r = divmod(length, 4)
+    st = Const(0xFFFFFFFF, 32)
+    for j in range(nfull):
+        st = crc32_next(m, st, pay[j], 4, f"{name}_c32_s{j}")
+    if r:
+        st = crc32_next(m, st, pay[nfull], r, f"{name}_c32_s{nfull}")
+    field = crc32_out(m, st, f"{name}_c32_field")
+    tail = Signal(64, name=f"{name}_tail")
+    m.d.comb += tail.eq(Cat(field ^ m32, Const(DPPEND[0], 32)))
+    for j in range(nfull):
+        out.append((pay[j], 0))
+    if r:
+        last = Signal(32, name=f"{name}_lastword")
+        m.d.comb += last.eq(Cat(pay[nfull][0:8 * r], tail[0:32 - 8 * r]))
+        out.append((last, 0))
+    off = (4 - r) % 4
+    t1 = Signal(32, name=f"{name}_t1")
+    t2 = Signal(32, name=f"{name}_t2")
+    m.d.comb += [t1.eq(tail[8 * off: 8 * off + 32]), t2.eq(tail[8 * (off + 4): 64])]
+    out.append((t1, (0xF0 >> off) & 0xF))
+    out.append((t2, (0xF0 >> (off + 4)) & 0xF))
+    return out
